@@ -472,9 +472,12 @@ Definition clean_stray (s : stage) (n : name) : stage :=
         let oc := alookup n (cmps s) in
         let st := cache_state s n in
         let '(del, delc) :=
-          if 0 <? st then
-            ((match oc with None => true | Some c => name_eqb (c_hash c) (cache_hash s n) end),
-             (match oc with None => false | Some _ => st =? ST_LOGGED end))
+          if (0 <? st) && negb (st =? ST_FAILED) then
+            (* known as validated (held), put away or logged: a left-over only if it is that very
+               version; the companion goes with its partial, never alone (fix "cleanStrays: a failed
+               version is not a delivered one; a companion is removed only with its partial") *)
+            let del := match oc with None => true | Some c => name_eqb (c_hash c) (cache_hash s n) end in
+            (del, del && (match oc with None => false | Some _ => st =? ST_LOGGED end))
           else
             let h := match oc with Some c => c_hash c | None => [] end in
             if log_has s n h then (true, match oc with None => false | Some _ => true end)
